@@ -9,6 +9,10 @@ from .interp import Fork, Frame, Instance, Interp, Raised, UnknownTruth
 from .shape import Size, simp, sz_eq, sz_min
 
 
+# library functions that look at the type / shape of an array, not at its contents (legal on a buffer whose contents were given up)
+METADATA_ONLY = {'isrealobj', 'iscomplexobj', 'shape', 'ndim', 'size', 'result_type', 'can_cast', 'isscalar', 'issubdtype'}
+
+
 class L2Domain:
     def __init__(self, ctx):
         self.ctx = ctx
@@ -95,7 +99,7 @@ class L2Domain:
             walk(x)
         self.ctx.cur_operands = tuple(ops)
         dead = getattr(self.ctx, 'destroyed', None)
-        if dead:
+        if dead and getattr(f, '__name__', '') not in METADATA_ONLY:
             direct = [x for x in list(args) + list(kwargs.values()) if isinstance(x, Arr)]
             if f is not None and isinstance(getattr(f, '__self__', None), Arr):
                 direct.append(f.__self__)
